@@ -87,7 +87,7 @@ def main(tier):
                     ok2 = post["first"] == nxt and ((nxt is None and post["last"] is None) or (nxt is not None and post["last"] in ("unk", pre["last"])))
                     run.ob(entry, "new_node/%s: first := head.next; last := None iff the list became empty" % prof, ok2,
                            key="new_node|free-list ends wrong after popping the head", detail=d, nontrivial=nt)
-                    plo, phi = rec["returned_prev_stamp_range"]
+                    plo, phi = rec.get("returned_prev_stamp_range") or (0, 0)
                     run.ob(entry, "new_node/%s: recycled slot was removed (stamp < 0) and reuseable" % prof, phi < 0 and plo > I16_MIN,
                            key="new_node|recycled slot was not a removed, reuseable slot", detail=d)
             elif entry == "clear":
